@@ -35,6 +35,25 @@ def strip_sgr(data):
     return _SGR[0].sub(b'', data) if isinstance(data, bytes) else _SGR[1].sub('', data)
 
 
+_PTY_OK = [None]
+
+
+def pty_available():
+    """pseudo terminals may be missing in a sealed sandbox: the terminal runs are then left out (and the evidence says so)"""
+    if _PTY_OK[0] is None:
+        try:
+            import pty
+            import termios
+            m, s = pty.openpty()
+            termios.tcgetattr(s)
+            os.close(m)
+            os.close(s)
+            _PTY_OK[0] = True
+        except Exception:
+            _PTY_OK[0] = False
+    return _PTY_OK[0]
+
+
 def run_pty(args, data, env=None, timeout=60, cwd=None):
     """runs args with standard output on a pseudo terminal (output post-processing switched off, so bytes arrive as
     written), standard error on a pipe and `data` on a pipe as standard input. Returns (status | 'timeout', terminal
@@ -106,7 +125,10 @@ def run_chunked(args, data, chunk, env=None, timeout=60, cwd=None, empty_after=N
     import socket
     import subprocess
     import threading
-    a, b = socket.socketpair(socket.AF_UNIX, socket.SOCK_SEQPACKET)
+    try:
+        a, b = socket.socketpair(socket.AF_UNIX, socket.SOCK_SEQPACKET)
+    except OSError as e:
+        raise MachineryError('no SOCK_SEQPACKET socket pair in this sandbox: %s' % e)
     try:
         p = subprocess.Popen(args, stdin=b.fileno(), stdout=subprocess.PIPE, stderr=subprocess.PIPE, env=env, cwd=cwd,
                              preexec_fn=child_setup)
